@@ -217,7 +217,7 @@ def rand_case(draw, max_len):
         blk = 127
     case = {"len": n, "crc_req": draw(st.booleans()), "crc_srv": draw(st.booleans()),
             "size_ind": draw(st.booleans()), "blksize": blk}
-    if draw(st.booleans()):
+    if n <= 1500 and draw(st.booleans()):
         case["data"] = draw(st.binary(min_size=n, max_size=n))
     else:
         case["salt"] = draw(st.integers(0, 250))
